@@ -63,8 +63,11 @@ PATTERN_POOL = ["foo", "bar", "-x", "a b", "[", "é"]
 
 def gen_spec(rng):
     """declarative description of a component graph; component ids = creation order"""
-    if rng.random() < 0.25:
+    r0 = rng.random()
+    if r0 < 0.2:
         return gen_spec_first_of(rng)
+    if r0 < 0.45:
+        return gen_spec_chain(rng)
     sp = {"enabled": rng.random() >= 0.08, "points": [], "anon": [], "impls": [], "extra": [],
           "derived": [], "parsers": [], "combiners": [], "plain": 1}
     n = 0
@@ -190,6 +193,38 @@ def gen_spec_first_of(rng):
     return sp
 
 
+def gen_spec_chain(rng):
+    """spec A -> parser of A -> @datasource(parser) implementing ANOTHER filterable spec B (-> parser of B ->
+    datasource -> spec C).  The walk of get_filters goes up over dependents that are DATASOURCES only: B's filters
+    must not reach A (the parser between them is not a datasource), and A without a filter of its own stays
+    uncollectable whatever B has."""
+    k = rng.choice([2, 2, 3])
+    sp = {"enabled": True, "points": [{"filterable": rng.random() < 0.9, "raw": False} for _ in range(k)],
+          "anon": [], "impls": [{"0": ["file"]}], "extra": [], "derived": [], "parsers": [], "combiners": [],
+          "plain": 1, "scenario": "chain", "chain": []}
+    n = k + 1                      # points, then A's file implementation (id k)
+    roles = {"points": list(range(k)), "impls": [k], "parsers": [], "computed": []}
+    for p in range(k):
+        sp["chain"].append(["parser", p])
+        roles["parsers"].append(n)
+        n += 1
+        if p + 1 < k:
+            sp["chain"].append(["dsfrom", n - 1])
+            d = n
+            n += 1
+            sp["chain"].append(["bind", p + 1, d])
+            roles["computed"].append(d)
+            roles["impls"].append(d)
+            if rng.random() < 0.4:
+                sp["chain"].append(["parser", d])       # a parser directly on the computed datasource
+                roles["parsers"].append(n)
+                n += 1
+    sp["roles"] = roles
+    sp["nds"] = 0
+    sp["n"] = n + 1
+    return sp
+
+
 class World(object):
     """real components built from a spec + the generator's own record of the graph (for the oracle)"""
 
@@ -284,6 +319,26 @@ class World(object):
             for x in cb["req"] + [y for grp in cb["any"] for y in grp] + cb["opt"]:
                 edge(x, c)
 
+        # chain steps (scenario "chain"): spec -> parser -> @datasource(parser) implementing ANOTHER spec -> ...
+        for i, st in enumerate(sp.get("chain", [])):
+            if st[0] == "parser":
+                cls = type("CP%d%s" % (i, tag), (Parser,), {"parse_content": lambda self, content: None})
+                parser(self.comps[st[1]])(cls)
+                edge(st[1], reg(cls, False, False, False))
+            elif st[0] == "dsfrom":
+                def fn(broker):
+                    return None
+                fn.__name__ = "cd%d%s" % (i, tag)
+                datasource(self.comps[st[1]])(fn)
+                edge(st[1], reg(fn, True, False, False))
+            else:       # ["bind", point, ds]: the computed datasource becomes the implementation of the point
+                _, p_, d_ = st
+                type("CI%d%s" % (i, tag), (S,), {"p%d" % p_: self.comps[d_]})
+                pf = sp["points"][p_]["filterable"]
+                self.attr_false[d_] = pf is False
+                self.deleg_filterable[d_] = bool(pf)
+                edge(d_, p_)
+
         def plain():
             return None
         reg(plain, False, False, False)
@@ -318,6 +373,27 @@ def gen_ops(rng, sp, quick):
     n = sp["n"]
     npts = len(sp["points"])
     ops = []
+    if sp.get("scenario") == "chain":
+        # filters on the downstream specs / their parsers, on A sometimes and sometimes never; every spec,
+        # implementation and computed datasource looked up and built (host + archive) between and after
+        ro = sp["roles"]
+        dss = ro["points"] + ro["impls"]
+        a_gets = rng.random() < 0.5
+        for _ in range(rng.randint(6, 12)):
+            r = rng.random()
+            if r < 0.45:
+                pool = ro["points"][1:] + ro["parsers"][1:] + ro["computed"]
+                if a_gets and rng.random() < 0.35:
+                    pool = [ro["points"][0], ro["parsers"][0], ro["impls"][0]]
+                ops.append(["add", rng.choice(pool), {"t": "str", "v": rng.choice(PATTERN_POOL)}, rng.choice(["default", 1, 2, 3])])
+            elif r < 0.8:
+                ops.append(["get", rng.choice(dss)])
+            else:
+                ops.append(["build", rng.random() < 0.7, rng.choice(dss)])
+        rng.shuffle(dss)
+        ops += [["get", c] for c in dss]
+        ops += [["build", True, ro["impls"][0]], ["build", True, ro["points"][0]], ["build", False, ro["impls"][0]]]
+        return ops
     if sp.get("scenario") == "first_of":
         # different filter sets per spec (through the spec, its first_of implementation or its parser), every
         # anonymous datasource / implementation / spec looked up between the registrations
@@ -1659,7 +1735,10 @@ def run(chk):
     chk.rule = ("(a) histories of 4-12 add_filter/get_filters/provider-construction operations over a fresh generated "
                 "component graph (1-3 registry points with random filterable/raw flags, 1-2 implementation classes using "
                 "simple_file/simple_command/first_of/shared datasource objects, derived datasources, parsers, combiners, "
-                "a plain function; 8% with filtering disabled); non-trivial = some look-up returned a non-empty set or was "
+                "a plain function; 8% with filtering disabled; 20% a first_of scenario (2-3 specs each behind its own first_of over "
+                "anonymous simple_files); 25% a chain scenario (spec A -> parser -> @datasource(parser) implementing spec B [-> parser -> "
+                "datasource -> spec C], filters on B/C and their parsers, on A sometimes or never, look-ups and host/archive provider "
+                "construction of A, its implementation and the computed datasources)); non-trivial = some look-up returned a non-empty set or was "
                 "answered from the cache after a registration; "
                 "(c) load histories: 1-3 filters with max_match 1-3 on one spec, then 5-10 steps of loading generated files of the "
                 "same datasource through TextFileProvider under HostArchiveContext (simple_file and glob_file / multi-output), "
@@ -1803,6 +1882,7 @@ def _run(chk, rng, quick, n_hist, n_content, n_direct, n_bad, n_load, n_branch, 
         for t in h.tags:
             chk.count(t)
         chk.count("world:n=%d" % min(sp["n"], 12))
+        chk.count("world:scenario=%s" % sp.get("scenario", "general"))
         if not sp["enabled"]:
             chk.count("world:disabled")
     chk.sample({"history": hist_cases[len(corpus)][1][:4], "graph": hist_cases[len(corpus)][0]})
